@@ -301,7 +301,13 @@ def c11_values(ctx):
     c07_who(ctx)
 
 
-RULES = [c11_1, c11_2, c11_3, c11_4, c11_5, c11_consume, c11_values]
+def c11_state(ctx):
+    """Nothing is remembered between statements / files beyond the reviewed state (rules/shared.py STATE)."""
+    from rules.shared import state_discipline
+    state_discipline(ctx, ('bespokeasm.assembler.line_object',))
+
+
+RULES = [c11_1, c11_2, c11_3, c11_4, c11_5, c11_consume, c11_values, c11_state]
 
 _D = 'assembler/line_object/data_line.py'
 _F = 'assembler/line_object/directive_line/fill_data.py'
